@@ -11,6 +11,7 @@ One constructor of `Act` = one mutex-protected section or pointer snapshot of th
                    so every MemTableSize / MaxWALSize setting is covered)
 * `flushBegin`     the flush task snapshots the sealed memtables (`mtables.Sealed()`) and writes one table each
 * `flushCommit`    under `db.mu`: tables appended to level 0, sealed memtables dequeued
+* `flushAbort`     the flush task returns with an error before its commit section: no change except that the task is over
 * `compact`        under `db.mu`: a change set (removed table ids, target level, added runs) applied by identity
                    (`NewWithChangeSet`); which change sets the compactor produces is C18's subject, here every
                    change set that passes the executable `safeCS` test is allowed
@@ -147,6 +148,11 @@ inductive Act where
   /-- the flush task snapshots the `n` oldest memtables, all sealed (the snapshot is taken when the task starts running, possibly before later rotations) -/
   | flushBegin (n : Nat)
   | flushCommit
+  /-- the flush task fails while writing a table (`tableWriter.Write` returns an error, `db.go` returns from the task
+  before the commit section): nothing is committed — the sealed memtables stay queued, the level list is unchanged,
+  the tables already written are garbage — and the task is over, so a later flush task snapshots the sealed
+  memtables again (the union) -/
+  | flushAbort
   /-- removed table ids, target level, added runs (in the order they are appended) -/
   | compact (rm : List Nat) (lvl : Nat) (add : List Run)
   | getA (k : Bytes)
@@ -234,6 +240,10 @@ def step (s : State) : Act → Option State
           mems := s.mems.drop snap.length,
           flushing := none }
       else none
+  | .flushAbort =>
+    match s.flushing with
+    | none => none
+    | some _ => some { s with flushing := none }
   | .compact rm lvl add =>
     if safeCS s.levels rm lvl add then
       some { s with
